@@ -30,6 +30,14 @@ func (c *evalCtx) with(name string, v Val) *evalCtx {
 	return &n
 }
 
+// evalAssume evaluates a clause that is about to be ASSUMED: universally quantified facts over slice positions are stated in
+// both index forms (absolute positions and plain indices), so that every declared pattern is usable as a trigger.
+func (f *Frame) evalAssume(cl *Clause, env map[string]Val, cur, old *State) Term {
+	f.dupQuant++
+	defer func() { f.dupQuant-- }()
+	return f.evalClause(cl, env, cur, old)
+}
+
 func (f *Frame) evalClause(cl *Clause, env map[string]Val, cur, old *State) Term {
 	defer func() {
 		if r := recover(); r != nil {
@@ -86,6 +94,8 @@ func (f *Frame) specSort(name string) (Sort, types.Type) {
 		return SSlice, types.NewSlice(types.Typ[types.Uint8])
 	case "StrSet":
 		return ArrSort(SStr, SBool), nil // a set of strings (key set of a map[string]T)
+	case "IntSet":
+		return ArrSort(SInt, SBool), nil // a set of integers (indices)
 	case "StrRefMap":
 		return ArrSort(SStr, SInt), nil // strings to references (values of a map[string]*T)
 	}
@@ -200,6 +210,26 @@ func (f *Frame) eval(e Expr, c *evalCtx) Val {
 		un.setMemo[key] = pset
 		return Val{T: pset}
 	case EQuant:
+		if f.dupQuant > 0 && !f.noShift && x.Forall && len(x.Pats) > 1 && un.inQuant == 0 {
+			// assumed fact with several alternative patterns: state it in both index forms
+			a := func() Term {
+				saved := f.dupQuant
+				f.dupQuant = 0
+				defer func() { f.dupQuant = saved }()
+				return f.eval(x, c).T
+			}()
+			b := func() Term {
+				saved := f.dupQuant
+				f.dupQuant = 0
+				f.noShift = true
+				defer func() { f.dupQuant = saved; f.noShift = false }()
+				return f.eval(x, c).T
+			}()
+			if a.S == b.S {
+				return boolVal(a)
+			}
+			return boolVal(And(a, b))
+		}
 		nc := c
 		var vars []Term
 		var guards []Term
@@ -210,7 +240,7 @@ func (f *Frame) eval(e Expr, c *evalCtx) Val {
 			bv := Term{fmt.Sprintf("%s!q%d", qv.Name, qcounter), srt}
 			vars = append(vars, bv)
 			bound := Val{T: bv, Go: gt}
-			if srt == SInt {
+			if srt == SInt && !f.noShift {
 				// a variable used as a slice index ranges over absolute positions of the backing row
 				if off, ok := f.sliceShift(x.Body, qv.Name, x.Vars, c); ok {
 					bound.T = Sub(bv, off)
@@ -797,6 +827,32 @@ func (f *Frame) evalCall(x ECall, c *evalCtx) Val {
 		return boolVal(And(
 			Forall([]Term{r}, Implies(And(Neq(r, m.T), Le(r, lim)), Eq(Select(dc, r), Select(do, r))), Select(dc, r)),
 			Forall([]Term{r}, Implies(And(Neq(r, m.T), Le(r, lim)), Eq(Select(vc, r), Select(vo, r))), Select(vc, r))))
+	case "$trig":
+		// keeps the pattern terms of a split quantified goal in the goal (see splitGoal)
+		var cs []Term
+		for _, a := range x.Args {
+			var v Val
+			ok := true
+			func() {
+				defer func() {
+					if r := recover(); r != nil {
+						if _, u := r.(unsupported); !u {
+							panic(r)
+						}
+						ok = false
+					}
+				}()
+				v = f.eval(a, c)
+			}()
+			if !ok || v.T.S == "" || v.T.Sort == SBool {
+				continue
+			}
+			name := "trg_" + sanitize(string(v.T.Sort))
+			un.eng.declareUF(name, []Sort{v.T.Sort}, SBool)
+			un.eng.trigSorts[name] = v.T.Sort
+			cs = append(cs, mk(SBool, "uf_"+name, v.T))
+		}
+		return boolVal(And(cs...))
 	case "emptyset":
 		return Val{T: ConstArr(ArrSort(SStr, SBool), tFalse)}
 	case "domof", "valsof":
@@ -1315,7 +1371,16 @@ func (f *Frame) splitGoal(e Expr, env map[string]Val, depth int) []Expr {
 	case EQuant:
 		if x.Forall {
 			var out []Expr
-			for _, p := range f.splitGoal(x.Body, env, depth+1) {
+			parts := f.splitGoal(x.Body, env, depth+1)
+			for _, p := range parts {
+				if len(parts) > 1 && len(x.Pats) > 0 {
+					// a part may not mention the pattern terms any more: keep them alive with trigger markers
+					var targs []Expr
+					for _, grp := range x.Pats {
+						targs = append(targs, grp...)
+					}
+					p = EBinary{"&&", ECall{"$trig", targs}, p}
+				}
 				out = append(out, EQuant{Forall: true, Vars: x.Vars, Body: p, Pats: x.Pats})
 			}
 			return out
